@@ -215,10 +215,13 @@ pub fn deviation_props(stream: &[u8], expect: &[Out], got: &Result<Vec<Out>, Str
             let i = (0..expect.len().max(g.len())).find(|&i| expect.get(i) != g.get(i)).unwrap_or(0);
             let e = expect.get(i); let r = g.get(i);
             let is_eof = |o: Option<&Out>| matches!(o, Some(Out::Closed) | Some(Out::UnexpectedEof));
+            let is_resp = |o: Option<&Out>| matches!(o, Some(Out::Resp(_)));
             if i == 0 { p.push("C18"); if is_eof(e) || is_eof(r) { p.push("C10"); } }
-            else if is_eof(e) || is_eof(r) || r.is_none() { p.push("C10"); if matches!(e, Some(Out::Resp(_))) { p.push("C03"); } }
-            else if matches!(e, Some(Out::Invalid)) || matches!(r, Some(Out::Invalid)) { p.push("C09"); if matches!(e, Some(Out::Resp(_))) { p.push("C03"); } }
-            else { p.push("C03"); }
+            else if matches!(e, Some(Out::Invalid)) { p.push("C09"); }                     // malformed input not answered with InvalidMessage
+            else if is_eof(e) && (is_eof(r) || r.is_none()) { p.push("C10"); }             // EOF misclassified
+            else if is_eof(e) { p.push("C10"); p.push("C09"); }                            // something fabricated where the stream just ended
+            else if is_resp(e) && is_eof(r) { p.push("C10"); p.push("C03"); }              // a complete response not delivered, EOF reported instead
+            else { p.push("C03"); }                                                        // well-formed output rejected or decoded differently
         }
     }
     if unsegmented.as_ref().ok().map(|u| u.as_slice()) == Some(expect) || got != other_flavour { p.push("C02"); }
